@@ -12,6 +12,7 @@ EXTENDS EventIdentity, Json
 
 VersionsAll == AllVersions
 ShapesAll == AllShapes
+ShapesC03 == 1..14        \* 15-16 differ from 4-5 only in who must sign: C04's subject
 ShapesLite == {1, 2, 5, 7, 9, 12}
 ShapesNum == {1, 7, 9}         \* message (number redactable), create (kept whole from v11), power levels
 VariantsAll == AllVariants
